@@ -297,8 +297,10 @@ def gen_base(rng, pairing):
 
     hbar = float(rng.choice(HBARS))
     if pairing == "gaussian-fock":
-        d = int(rng.integers(1, 4))
-        cutoff = int(rng.integers(1, 8)) if rng.random() < 0.25 else int(rng.integers(5, 9 if d < 3 else 8))
+        # large cutoffs on few modes keep the ledger bound small (1e-6..1e-3), so that small effects
+        # (a dropped conjugation acting on a displaced mean, ...) are not masked by the bound
+        choices = [(1, 12), (1, 9), (2, 10), (2, 8), (3, 7), (3, 6), (1, 3), (2, 4), (1, 1), (2, 2)]
+        d, cutoff = choices[int(rng.choice(len(choices), p=[0.16, 0.1, 0.2, 0.14, 0.12, 0.08, 0.06, 0.06, 0.04, 0.04]))]
         pool = list(G.PASSIVE_GATES) + [g for g in G.ACTIVE_GATES if not g.startswith("Controlled")] + list(G.DISPLACEMENTS)
         n = int(rng.integers(1, 7))
         gates = []
@@ -310,7 +312,7 @@ def gen_base(rng, pairing):
             if exact_class and active_seen and is_active:
                 name = str(rng.choice(G.PASSIVE_GATES))
                 is_active = False
-            g = G.gate(rng, name, d, active_scale=0.15, disp_scale=0.25)
+            g = G.gate(rng, name, d, active_scale=0.2, disp_scale=0.4)
             if g is None:
                 continue
             active_seen = active_seen or is_active
